@@ -163,7 +163,7 @@ def chr1(ctx, lib):
                     m_ = local.peel(o[2][0])
                     if m_[0] == "call" and m_[1].endswith("Iterator::map") and any(x[0] == "field" and x[1] == fld for x in local.walk(m_[2][0])):
                         elementwise = True
-                literal = any(x[0] == "call" and re.search(r"box_assume_init_into_vec|vec::from_elem|Vec::<T>::new$|Vec::<T>::with_capacity$", x[1]) for x in local.walk(o))
+                literal = any(x[0] == "call" and re.search(r"^vec!$|box_assume_init_into_vec|vec::from_elem|Vec::<T>::new$|Vec::<T>::with_capacity$", x[1]) for x in local.walk(o))
                 if elementwise:
                     ctx.ok(rid, "%s:%s = map over the same entries" % (b.path, fld), None, b.loc(s_.get("line")))
                 elif literal:
